@@ -498,12 +498,22 @@ pub struct Gen<'a> {
     pub rng: &'a mut Rng,
     pub cfg: &'a GenCfg,
     budget: usize,
+    /// > 0 while generating something whose value flows INTO a variable (capture body, assign
+    /// right-hand side, partial arguments). There only names that are never assigned may be read:
+    /// otherwise `{% capture x %}{{ x }}{{ x }}{% endcapture %}` in nested loops doubles a string per
+    /// iteration and the library (legitimately) never comes back.
+    restricted: usize,
 }
+
+/// Names that assign/capture may write (and that restricted code never reads).
+pub const MUTABLE: [&str; 3] = ["c", "d", "x"];
+/// Names that are never assigned.
+pub const IMMUTABLE: [&str; 2] = ["a", "b"];
 
 impl<'a> Gen<'a> {
     pub fn new(rng: &'a mut Rng, cfg: &'a GenCfg) -> Self {
         let budget = cfg.max_nodes;
-        Gen { rng, cfg, budget }
+        Gen { rng, cfg, budget, restricted: 0 }
     }
 
     pub fn template(&mut self) -> Vec<Node> {
@@ -513,7 +523,15 @@ impl<'a> Gen<'a> {
     }
 
     fn name(&mut self) -> String {
-        NAMES[self.rng.below(NAMES.len())].to_string()
+        if self.restricted > 0 {
+            IMMUTABLE[self.rng.below(IMMUTABLE.len())].to_string()
+        } else {
+            NAMES[self.rng.below(NAMES.len())].to_string()
+        }
+    }
+
+    fn target(&mut self) -> String {
+        MUTABLE[self.rng.below(MUTABLE.len())].to_string()
     }
 
     fn lit(&mut self) -> Expr {
@@ -659,6 +677,13 @@ impl<'a> Gen<'a> {
     }
 
     fn args(&mut self) -> Vec<(String, Expr)> {
+        self.restricted += 1;
+        let v = self.args_inner();
+        self.restricted -= 1;
+        v
+    }
+
+    fn args_inner(&mut self) -> Vec<(String, Expr)> {
         let mut v = vec![];
         while v.len() < 2 && self.rng.chance(1, 3) {
             let k = self.name();
@@ -717,6 +742,10 @@ impl<'a> Gen<'a> {
             if matches!(*k, "include" | "render" | "probe") && self.cfg.partials.is_empty() && self.cfg.absent.is_empty() {
                 w[i] = 0;
             }
+            if self.restricted > 0 && matches!(*k, "include" | "render" | "assign" | "capture") {
+                // a partial (or a nested assignment) could read what is being written
+                w[i] = 0;
+            }
         }
         if w.iter().all(|&x| x == 0) {
             w[0] = 1;
@@ -728,8 +757,21 @@ impl<'a> Gen<'a> {
                 let trim = if self.rng.chance(self.cfg.trim_per_16, 16) { 1 + self.rng.below(3) as u8 } else { 0 };
                 Node::Output { expr: self.expr_out(), filters: self.filters(), trim }
             }
-            "assign" => Node::Assign { name: self.name(), expr: self.expr_arg(), filters: self.filters() },
-            "capture" => Node::Capture { name: self.name(), body: self.sub(depth, in_loop) },
+            "assign" => {
+                let name = self.target();
+                self.restricted += 1;
+                let expr = self.expr_arg();
+                let filters = self.filters();
+                self.restricted -= 1;
+                Node::Assign { name, expr, filters }
+            }
+            "capture" => {
+                let name = self.target();
+                self.restricted += 1;
+                let body = self.sub(depth, in_loop);
+                self.restricted -= 1;
+                Node::Capture { name, body }
+            }
             "incr" => Node::Incr(self.name()),
             "decr" => Node::Decr(self.name()),
             "cycle" => {
@@ -804,14 +846,16 @@ impl<'a> Gen<'a> {
             },
             "render" => match self.partial_name() {
                 Some(name) => {
+                    self.restricted += 1;
                     let mode = match self.rng.below(5) {
                         0 => RenderMode::With(self.expr_arg(), self.name()),
                         1 => RenderMode::For(self.range_safe(), self.name()),
                         _ => RenderMode::Plain,
                     };
+                    self.restricted -= 1;
                     let mut args = self.args();
                     if self.rng.chance(3, 4) {
-                        for n in NAMES.iter().chain(["arr", "obj", "s", "zero", "boom"].iter()) {
+                        for n in IMMUTABLE.iter().chain(["arr", "obj", "s", "zero", "boom"].iter()) {
                             if !args.iter().any(|(k, _)| k == n) {
                                 args.push((n.to_string(), Expr::Var(n.to_string())));
                             }
@@ -979,10 +1023,17 @@ pub fn gen_partials(rng: &mut Rng, base: &GenCfg, corrupt_per_8: u32, absent_per
     let mut names: Vec<String> = (0..n).map(|i| format!("p{i}")).collect();
     // one partial stored as `x.liquid` and invoked as `x` (render's fallback lookup)
     let mut fallback = None;
-    if n > 0 && rng.chance(1, 4) {
+    if n > 0 && rng.chance(1, 2) {
         let i = rng.below(n);
         names[i] = "x.liquid".to_string();
         fallback = Some(i);
+        // sometimes both spellings exist, with different content
+        // (only at a LARGER index: every use of the name `x` then resolves to a later partial and the
+        // include graph stays acyclic)
+        if i + 1 < n && rng.chance(1, 4) {
+            let j = i + 1 + rng.below(n - i - 1);
+            names[j] = "x".to_string();
+        }
     }
     let mut absent = vec![];
     if rng.chance(absent_per_8, 8) {
@@ -990,7 +1041,9 @@ pub fn gen_partials(rng: &mut Rng, base: &GenCfg, corrupt_per_8: u32, absent_per
     }
     let mut defs: Vec<PartialDef> = Vec::new();
     for i in (0..n).rev() {
-        let body = if rng.chance(corrupt_per_8, 8) {
+        // a plain `x` next to `x.liquid` must be valid: `render 'x'` falls back to `x.liquid` on ANY
+        // error of `x`, so a corrupt `x` would make `x.liquid` (which may render `x`) call itself
+        let body = if names[i] != "x" && rng.chance(corrupt_per_8, 8) {
             PartialBody::Corrupt(CORRUPT[rng.below(CORRUPT.len())].to_string())
         } else {
             let mut cfg = base.clone();
